@@ -156,22 +156,7 @@ func runC17(t *testing.T, s *kit.Session, c c17Case) *kit.Failure {
 	}
 	if chainDefect != "" || readerErr != "" {
 		// classification: the listed finding is "two successful writers, same number"
-		dupOnly := false
-		if strings.Contains(chainDefect, "but its parent is numbered") {
-			// single-parent chain, only defect: an entry numbered like its parent
-			dupOnly = true
-			for i := 1; i < len(chain); i++ {
-				e, p := chain[i], chain[i-1]
-				if len(e.Parents) != 1 || strings.HasPrefix(e.Kind, "invalid:") {
-					dupOnly = false
-				}
-				// a stale number is never ahead of its parent's: the writer numbered
-				// its entry after an older tip than the one it was parented on
-				if e.Number != p.Number+1 && !(e.Number >= 1 && e.Number <= p.Number) {
-					dupOnly = false
-				}
-			}
-		}
+		dupOnly := strings.Contains(chainDefect, "but its parent is numbered") && c17StaleNumbersOnly(chain)
 		if dupOnly && s.IsKnown("C17-duplicate-number-after-double-read") {
 			s.KnownHit("C17-duplicate-number-after-double-read", c)
 			return nil
@@ -200,6 +185,34 @@ func runC17(t *testing.T, s *kit.Session, c c17Case) *kit.Failure {
 	}
 	s.Observe(c, preempt >= len(c.Ops), classes...)
 	return nil
+}
+
+// c17StaleNumbersOnly classifies the listed finding: the chain is a
+// single-parent chain of well-formed entries whose only defect is that some
+// entries carry the number a writer computed from an older tip than the one
+// its commit was parented on (number = 1 + the number of some earlier entry
+// of the chain, instead of 1 + its parent's).
+func c17StaleNumbersOnly(chain []*kit.RawEntry) bool {
+	seen := map[uint64]bool{0: true} // a writer that saw an empty log numbers its entry 1
+	for i, e := range chain {
+		if strings.HasPrefix(e.Kind, "invalid:") {
+			return false
+		}
+		if i == 0 {
+			if len(e.Parents) != 0 {
+				return false
+			}
+		} else {
+			if len(e.Parents) != 1 {
+				return false
+			}
+			if e.Number < 1 || !seen[e.Number-1] {
+				return false
+			}
+		}
+		seen[e.Number] = true
+	}
+	return true
 }
 
 func decodeAnnMsg(text string) string {
@@ -264,11 +277,33 @@ func c17Systematic(i int) (c17Case, bool) {
 func TestC17(t *testing.T) {
 	s := kit.Open(t, "C17")
 	run := func(c c17Case) *kit.Failure { return runC17(t, s, c) }
+	// process mode: the OS owns the schedule, so a replay repeats the case
+	runProc := func(c c17ProcCase) *kit.Failure { return runC17ProcOnce(t, s, c) }
 	if rf := kit.Replay(t); rf != nil {
+		if rf.Kind == "processes" {
+			kit.DoReplay(s, t, rf, func(c c17ProcCase) *kit.Failure {
+				for i := 0; i < 6; i++ {
+					if f := runProc(c); f != nil {
+						return f
+					}
+				}
+				return nil
+			})
+			return
+		}
 		kit.DoReplay(s, t, rf, run)
 		return
 	}
-	s.SetRule("2-3 recording operations {reference entry, entry signed with a specific key, annotation, propagation entry, policy staging commit} on one store under a scheduling Storer wrapper that grants one storage call at a time: (i) systematic - for 6 operation pairs every schedule 'A runs a calls, B runs b calls, A finishes, B finishes' with a,b in 0..13 (all placements of <=2 preemptions); (ii) rapid-generated random schedules for 2-3 writers. Oracle: independent walker (single parent, consecutive numbers), every operation that returned nil has exactly one entry and every failed one none, GetFirstEntry and a whole-log range query succeed. Non-trivial: at least as many context switches as writers")
+	s.SetRule("2-3 recording operations {reference entry, entry signed with a specific key, annotation, propagation entry, policy staging commit} on one store under a scheduling Storer wrapper that grants one storage call at a time: (i) systematic - for 6 operation pairs every schedule 'A runs a calls, B runs b calls, A finishes, B finishes' with a,b in 0..13 (all placements of <=2 preemptions); (ii) rapid-generated random schedules for 2-3 writers; (iii) process mode: 2-4 (quick) / 2-8 (thorough) real OS processes (the check binary re-executed as workers) each recording 3-6 / 3-20 reference / annotation / propagation entries on one on-disk git repository, every worker reporting which operations returned nil. Oracle: independent walker (single parent, consecutive numbers), every operation that returned nil has exactly one entry and every failed one none, GetFirstEntry and a whole-log range query succeed. Non-trivial: at least as many context switches as writers")
 	kit.Enumerate(s, t, "systematic", "schedule", c17Systematic, run)
 	kit.Campaign(s, t, "random", "schedule", s.Budget(80_000, 2_000_000), genC17, run)
+	// (iii) real processes on one on-disk repository (quick: 4 shards x 1 case; thorough: every shard x 6)
+	s.ShrinkTime = 1 // a process-mode failure is not a function of the drawn case alone: do not spend time shrinking
+	nproc, maxW, maxOps := 0, 4, 6
+	if s.Thorough() {
+		nproc, maxW, maxOps = 6, 8, 20
+	} else if s.Shard < 4 {
+		nproc = 1
+	}
+	kit.Campaign(s, t, "processes", "processes", nproc, genC17Proc(maxW, maxOps), runProc)
 }
